@@ -482,6 +482,11 @@ func rulePageRange(c *eng.Ctx) {
 		return
 	}
 	nApp := 0
+	type site struct {
+		in     ssa.Instruction
+		sorted bool // placed at the position a binary search of the result gives: the result stays ascending
+	}
+	var sites []site
 	for _, ci := range eng.Calls(fn, false, func(n string, _ ssa.CallInstruction) bool { return n == "builtin:append" }) {
 		args := ci.Common().Args
 		if len(args) < 2 {
@@ -490,6 +495,17 @@ func rulePageRange(c *eng.Ctx) {
 		if _, ok := fromRequested(args[1]); !ok {
 			continue
 		}
+		sites = append(sites, site{ci, false})
+	}
+	// sorted insertion: result[pos] = page with pos = sort.SearchInts(result, page)
+	isReq := func(v ssa.Value) bool { _, ok := fromRequested(v); return ok }
+	searchInsert := false
+	for _, st := range sortedInsertStores(fn, isReq) {
+		sites = append(sites, site{st, true})
+		searchInsert = true
+	}
+	for _, sx := range sites {
+		ci := sx.in
 		nApp++
 		blk := ci.Block()
 		isP := func(v ssa.Value) bool {
@@ -535,6 +551,9 @@ func rulePageRange(c *eng.Ctx) {
 			}
 			return false
 		})
+		if !seen && sx.sorted {
+			seen = sortedInsertDedup(fn, blk, isReq)
+		}
 		c.Check(lower, R, name+"#lower-bound", ci.Pos(), "p >= 1 holds where the page is appended", "a requested page number below 1 reaches the result (no `p < 1` rejection on every path)")
 		c.Check(upper, R, name+"#upper-bound", ci.Pos(), "p <= pageCount holds where the page is appended", "a requested page number beyond the document reaches the result (no `p > pageCount` rejection on every path)")
 		c.Check(seen, R, name+"#dedup", ci.Pos(), "append is guarded by the seen-set", "duplicates are not removed before appending")
@@ -546,7 +565,7 @@ func rulePageRange(c *eng.Ctx) {
 	sorts := eng.Calls(fn, false, func(n string, _ ssa.CallInstruction) bool {
 		return n == "sort.Ints" || n == "slices.Sort"
 	})
-	okSort := len(sorts) > 0
+	okSort := len(sorts) > 0 || searchInsert
 	c.Check(okSort, R, name+"#sorted", fn.Pos(), "result is sorted", "result is no longer sorted: pages come out in request order, not ascending page order")
 }
 
